@@ -190,6 +190,7 @@ func runC04(c *Ctx) {
 		r.Add("R2", "reacquire:"+c.FuncKey(fn)+":"+ra.Via, c.InstrPos(ra.In), c.FuncKey(fn), "the set's lock is not acquired while already held (self-deadlock / writer-starvation deadlock)", false, ra.Via+" while "+ra.Lock+" is held")
 	}
 	r.Add("R2", "no-reacquire", "-", "", "no re-acquisition of the handler-set lock anywhere in package client", true, "checked all call sites against transitive acquire sets")
+	c.c04Atomic(funcs, ls, lock, setVar, guarded)
 
 	// ---- R3
 	n3 := 0
@@ -379,27 +380,7 @@ func runC15(c *Ctx) {
 	if copyFn == nil {
 		return
 	}
-	n := 0
-	for _, hc := range c.HandlerCalls() {
-		fn := hc.Site.Parent()
-		cc := hc.Site.Common()
-		var arg ssa.Value
-		if cc.IsInvoke() {
-			arg = cc.Args[1]
-		} else if cc.StaticCallee() != nil {
-			arg = cc.Args[2]
-		} else {
-			arg = cc.Args[1]
-		}
-		n++
-		if pr, ok := arg.(*ssa.Parameter); ok && c.isHandleForwarder(fn) {
-			r.Add("R1", "forwarded:"+c.FuncKey(fn), c.InstrPos(hc.Site), c.FuncKey(fn), "line is the forwarded parameter of a Handle wrapper", true, "parameter "+pr.Name())
-			continue
-		}
-		ok, why := c.freshCopyArg(arg, hc.Site, copyFn)
-		r.Add("R1", "copy-per-invocation:"+c.FuncKey(fn), c.InstrPos(hc.Site), c.FuncKey(fn), "handler receives its own Line.Copy", ok, why)
-	}
-	r.Floor("R1", "handler invocation sites", n, 3)
+	c.perInvocationCopy("R1", copyFn)
 	_ = a
 
 	// R2
@@ -451,6 +432,33 @@ func runC15(c *Ctx) {
 		r.Add("R2", "field:"+f.Name(), c.Pos(copyFn.Pos()), c.FuncKey(copyFn), "reference field "+f.Name()+" is deep-copied on every path", ok, why)
 	}
 	r.Floor("R2", "reference-typed fields of Line", nref, 2)
+}
+
+// perInvocationCopy: at every handler-invocation site the line argument is a
+// forwarded parameter of a Handle wrapper or a once-per-invocation Copy.
+func (c *Ctx) perInvocationCopy(rule string, copyFn *ssa.Function) {
+	r := c.R
+	n := 0
+	for _, hc := range c.HandlerCalls() {
+		fn := hc.Site.Parent()
+		cc := hc.Site.Common()
+		var arg ssa.Value
+		if cc.IsInvoke() {
+			arg = cc.Args[1]
+		} else if cc.StaticCallee() != nil {
+			arg = cc.Args[2]
+		} else {
+			arg = cc.Args[1]
+		}
+		n++
+		if pr, ok := arg.(*ssa.Parameter); ok && c.isHandleForwarder(fn) {
+			r.Add(rule, "forwarded:"+c.FuncKey(fn), c.InstrPos(hc.Site), c.FuncKey(fn), "line is the forwarded parameter of a Handle wrapper", true, "parameter "+pr.Name())
+			continue
+		}
+		ok, why := c.freshCopyArg(arg, hc.Site, copyFn)
+		r.Add(rule, "copy-per-invocation:"+c.FuncKey(fn), c.InstrPos(hc.Site), c.FuncKey(fn), "handler receives its own Line.Copy", ok, why)
+	}
+	r.Floor(rule, "handler invocation sites", n, 3)
 }
 
 // freshCopyArg: arg derives (single use, once per site) from a Copy call.
